@@ -78,14 +78,15 @@ def thrClauses (s : State) (t : Tid) : List (String × Bool) :=
       | .closeCollect => th.op == .close
       | _ => true),
     -- layer C
-    ("stale_closed", th.stale.all (fun i => (s.inst i).st == .closed)),
+    ("stale_closed", th.stale.all (fun i => decide (i < s.nInst) && (s.inst i).st == .closed)),
     ("held_fresh", match holdsRef th.pc with
       | some r => (match (e r).value with | some i => !th.stale.contains i | none => true)
       | none => true),
-    ("ret_fresh", !isLookup || (match th.pc with
+    ("ret_fresh", (match th.pc with
       | .done (.val i) => !th.stale.contains i && decide (i < s.nInst) && (s.inst i).st.loaded && (s.inst i).id == th.op.id
       | .done (.objs l) => l.all (fun i => !th.stale.contains i && decide (i < s.nInst) && (s.inst i).st.loaded)
       | _ => true)),
+    ("held_id", match holdsRef th.pc with | some r => (e r).id == th.op.id | none => true),
     ("started", th.started || th.pc == firstPc th.op) ]
 
 /-- progress of the `Close()` call that set `closed` -/
